@@ -472,6 +472,31 @@ func genPrinter(c *ctx, s *schema) {
 	b.WriteString("end PhpVerif.Gen\n")
 	writeIfChanged(c.out+"/PrinterTab.lean", b.String())
 	c.side["printer"] = tabs
+	// default lexeme of every token field: the literals inside its default expression
+	c.printerDefaults = map[string][]string{}
+	var lits func(d *dflt) []string
+	lits = func(d *dflt) []string {
+		if d == nil {
+			return nil
+		}
+		var out []string
+		if d.Op == "lit" {
+			out = append(out, d.Lit)
+		}
+		out = append(out, lits(d.A)...)
+		out = append(out, lits(d.B)...)
+		return out
+	}
+	for i, k := range s.Kinds {
+		for _, o := range tabs[i] {
+			if (o.Op == "tok" || o.Op == "html") && o.F < len(k.Fields) {
+				c.printerDefaults[k.Name+"."+k.Fields[o.F].Name] = lits(o.D)
+			}
+			if o.Op == "sep" && o.G < len(k.Fields) {
+				c.printerDefaults[k.Name+"."+k.Fields[o.G].Name] = []string{o.Lit}
+			}
+		}
+	}
 }
 
 // ---------------------------------------------------------------- traverser
